@@ -38,7 +38,7 @@ def _jobs(ctx, entries):
             lvl = RUN.LEVELS[k % len(RUN.LEVELS)]
             ps = names[lvl]
             start = (k * 3 + rnd.randrange(len(ps))) % len(ps)
-            sample = {lvl: [ps[(start + j) % len(ps)] for j in range(3)]}
+            sample = {lvl: [ps[(start + j) % len(ps)] for j in range(2)]}
             levels = list(RUN.LEVELS)
         jobs.append({"entry": e, "tier": ctx.tier, "seed": ctx.seed, "levels": levels, "skip_sample": sample,
                      "want_snaps": True, "roundtrip_budget": 60 if ctx.tier == "quick" else 10 ** 9})
@@ -83,8 +83,9 @@ def stage1(ctx):
                 ctx.violation(
                     "failing-input",
                     f"Venom pipeline {f['config']} changes observable behaviour of {r['name']}; "
-                    + (f"localised to pass(es) {', '.join(loc)} (turning any one of them into a no-op restores the reference behaviour)"
-                       if loc else "not localised to a single pass"),
+                    + ("(localisation done for the first failing level only)" if not f.get("localisation_run") else
+                       f"localised to pass(es) {', '.join(loc)} (turning any one of them into a no-op restores the reference behaviour)"
+                       if loc else "not localised to a single pass (no single pass whose removal restores the reference behaviour)"),
                     dict(base, call=f["call"], calls_before=f["plan_prefix"], difference=f["diff"], expected=f["diff"].get("a"),
                          observed=f["diff"].get("b"), localised_to=loc, skip_does_not_help=f["skip_does_not_help"],
                          skip_does_not_compile=f["skip_does_not_compile"]), key=key)
